@@ -1,0 +1,10 @@
+// Copyright IBM Corp. 2020, 2025
+// SPDX-License-Identifier: MPL-2.0
+
+//go:build !verif
+
+package wal
+
+// verifPoint marks a schedule point for the verification harness. It does
+// nothing unless the package is built with the "verif" tag.
+func verifPoint(string) {}
